@@ -86,6 +86,8 @@ type vC03Sc struct {
 	ValFrac       float64
 	ProvFrac      float64
 	Local         bool // a local record / provider exists
+	Quorum        int  // GetValue / SearchValue quorum option (-1: PRNG among 0, 1, 2, K)
+	ValidOnly     bool // planted value records are all valid and correctly keyed
 }
 
 type vC03Cancel struct {
@@ -125,6 +127,7 @@ type vC03OpRun struct {
 	TRet     time.Time // return instant (channel operations: close observed)
 	Err      error
 	Items    int
+	Quorum   int // GetValue / SearchValue: explicit quorum option
 	Panicked bool
 	fn       func(ctx context.Context, o *vC03OpRun)
 	done     chan struct{}
@@ -170,10 +173,13 @@ func vC03MakeOp(c *vh.Case, n *vNet, sc *vC03Sc, r *rand.Rand, name string, j in
 	delay := sc.ConsumerDelay
 	plantValues := func(key string) {
 		vals := []string{"a1", "b2", "c3", "!bad", ""}
+		if sc.ValidOnly {
+			vals = vals[:3]
+		}
 		for _, id := range n.IDs {
 			if r.Float64() < sc.ValFrac {
 				rec := record.MakePutRecord(key, []byte(vals[r.Intn(len(vals))]))
-				if r.Intn(12) == 0 {
+				if !sc.ValidOnly && r.Intn(12) == 0 {
 					rec.Key = []byte(key + "-other") // mis-keyed record
 				}
 				n.S.Peer(id).Values[key] = rec
@@ -207,6 +213,10 @@ func vC03MakeOp(c *vh.Case, n *vNet, sc *vC03Sc, r *rand.Rand, name string, j in
 		}
 	}
 	quorum := []int{0, 0, 1, 2, K}[r.Intn(5)]
+	if sc.Quorum >= 0 {
+		quorum = sc.Quorum
+	}
+	o.Quorum = quorum
 	switch name {
 	case "gcp":
 		key := "/v/gcp-" + tag
@@ -804,23 +814,34 @@ func vC03RunOnce(t *testing.T, c *vh.Case, sc *vC03Sc, cm vC03Cancel) *vC03Out {
 	c.Clause("no-leak")
 	if len(extra) > 0 {
 		frame := "unknown"
+		onlyLookup := true // every survivor is the value lookup itself or one of its query workers stuck handing a record over
 		for _, g := range gs {
 			if base[g.CreatedBy+"@"+g.CreatedAt] == 0 {
 				c.Logf("leaked goroutine:\n%s", g.Text)
-				if f := vC03TopFrame(g.Text); f != "unknown" && (frame == "unknown" || f < frame) {
+				f := vC03TopFrame(g.Text)
+				if f != "unknown" && (frame == "unknown" || f < frame) {
 					frame = f
+				}
+				if !(strings.HasPrefix(f, "(*IpfsDHT).getValues.") || (f == "(*query).run" && strings.Contains(g.Text, "(*IpfsDHT).getValues."))) {
+					onlyLookup = false
 				}
 			}
 		}
 		var rets []string
 		for _, o := range runs {
-			rets = append(rets, fmt.Sprintf("%s returned at +%v (items %d, error %v)", o.Name, o.TRet.Sub(t0), o.Items, o.Err))
+			rets = append(rets, fmt.Sprintf("%s returned at +%v (items %d, error %v, quorum option %d)", o.Name, o.TRet.Sub(t0), o.Items, o.Err, o.Quorum))
 		}
 		ctxState := "still live"
 		if ctx.Err() != nil {
 			ctxState = "ended: " + ctx.Err().Error()
 		}
-		c.FailSig("no-leak", "no-leak@"+frame, "instance-owned goroutines beyond the at-rest census are still alive %v after the return (%s; cancel mode %s; the operation's context is %s): %v", vC03Settle, strings.Join(rets, "; "), cm.Mode, ctxState, extra)
+		sig := "no-leak@" + frame
+		if len(runs) == 1 && (runs[0].Name == "getvalue" || runs[0].Name == "searchvalue") && runs[0].Quorum > 0 && ctx.Err() == nil && onlyLookup {
+			// finding #22: after a quorum abort nobody reads valCh any more; in-flight queries holding a valid record
+			// block on it, and the lookup in waitGroup.Wait, until the CALLER's context ends
+			sig = "leak/searchvalue-quorum-abort"
+		}
+		c.FailSig("no-leak", sig, "instance-owned goroutines beyond the at-rest census are still alive %v after the return (%s; cancel mode %s; the operation's context is %s): %v", vC03Settle, strings.Join(rets, "; "), cm.Mode, ctxState, extra)
 	}
 	c.ObsMax("census_at_rest", len(base))
 
@@ -1000,7 +1021,11 @@ func vC03Judge(c *vh.Case, n *vNet, sc *vC03Sc, cm vC03Cancel, out *vC03Out, log
 	}
 	var errs []string
 	for _, o := range out.Runs {
-		errs = append(errs, fmt.Sprintf("%s:+%dms:%d:%v", o.Name, o.TRet.Sub(t0).Milliseconds(), o.Items, o.Err))
+		nm := o.Name
+		if o.Name == "getvalue" || o.Name == "searchvalue" {
+			nm = fmt.Sprintf("%s(quorum=%d)", o.Name, o.Quorum)
+		}
+		errs = append(errs, fmt.Sprintf("%s:+%dms:%d:%v", nm, o.TRet.Sub(t0).Milliseconds(), o.Items, o.Err))
 	}
 	c.Logf("cancel=%s/%v outcome %s rpcs=%d dials=%d failing-contacted=%d", cm.Mode, cm.At, strings.Join(errs, " "), out.Rpcs, out.Dials, out.FailHit)
 	h := sha256.Sum256([]byte(fmt.Sprintf("%v/%s/%d/%d/%d/%d/%s/%d/%d/%s", sc.Ops, cm.Mode, sc.Cfg.N, sc.Cfg.K, sc.Cfg.A, sc.Cfg.B, sc.Cfg.Knowledge, out.Rpcs, out.FailHit, strings.Join(errs, ","))))
@@ -1033,7 +1058,7 @@ func vC03GenNet(r *rand.Rand, maxN int) vNetCfg {
 }
 
 func vC03GenSc(r *rand.Rand, maxN int) *vC03Sc {
-	sc := &vC03Sc{Seed: r.Int63(), Cfg: vC03GenNet(r, maxN), Pool: -1}
+	sc := &vC03Sc{Seed: r.Int63(), Cfg: vC03GenNet(r, maxN), Pool: -1, Quorum: -1}
 	sc.MaxDelay = []int{5, 50, 400}[r.Intn(3)]
 	sc.FailFrac = []float64{0, 0.1, 0.3, 0.6, 0.9}[r.Intn(5)]
 	sc.LiarFrac = []float64{0, 0, 0.15, 0.4}[r.Intn(4)]
@@ -1092,6 +1117,7 @@ func vC03Describe(c *vh.Case, sc *vC03Sc, cm vC03Cancel) {
 	c.Set("warmup", sc.Warm)
 	c.Set("disconnect_after_warmup", sc.Disconnect)
 	c.Set("local_record", sc.Local)
+	c.Set("quorum_option", sc.Quorum)
 	c.Set("scenario_seed", sc.Seed)
 	if sc.Optim {
 		c.Set("optimistic_provide", true)
@@ -1104,11 +1130,27 @@ func vC03Describe(c *vh.Case, sc *vC03Sc, cm vC03Cancel) {
 
 func TestVerif_C03_ops(t *testing.T) {
 	vh.Run(t, vh.Spec{Prop: "C03", Unit: "ops", Quick: 1600, Thorough: 80000, CostMs: 18,
-		Rule: "PRNG case = simulated network (N 0-150; K in {1,2,3,5,8,20}, alpha in {1,2,3,10}, beta in {1,2,3,K}; knowledge full/kbucket/sparse; 0-90% (or all) peers failing by dial error, slow dial error, dials that take 2-9.5 s, request error, silence (10 s simulated read timeout), late answers (2-9.5 s), per-request flakiness, failing only the store RPC, answering once then silent; liars adding self / duplicates / strangers / 200 entries / themselves / mis-keyed records; value and provider records on some peers and locally; optional earlier lookups that filled the table; optional query/lookup event consumers; slow channel consumer) x one of GetClosestPeers, FindPeer, GetValue, SearchValue, FindProviders, FindProvidersAsync, PutValue, Provide(classic) x cancel mode {none, cancelled before the call, expired deadline, cancel at a log-uniform virtual instant 1 ms-60 s, ctx deadline 5 ms-61 s}; oracle in virtual time over the simulated wire/dial log + goroutine census; non-trivial = >= 1 RPC and (a contacted peer failed / was silent / late, or the cancellation hit the operation); distinct by (operation, cancel mode, shape, RPC count, outcome and return instant)",
+		Rule: "PRNG case = simulated network (N 0-150; K in {1,2,3,5,8,20}, alpha in {1,2,3,10}, beta in {1,2,3,K}; knowledge full/kbucket/sparse; 0-90% (or all) peers failing by dial error, slow dial error, dials that take 2-9.5 s, request error, silence (10 s simulated read timeout), late answers (2-9.5 s), per-request flakiness, failing only the store RPC, answering once then silent; liars adding self / duplicates / strangers / 200 entries / themselves / mis-keyed records; value and provider records on some peers and locally; optional earlier lookups that filled the table; optional query/lookup event consumers; slow channel consumer) x one of GetClosestPeers, FindPeer, GetValue, SearchValue, FindProviders, FindProvidersAsync, PutValue, Provide(classic) x cancel mode {none, cancelled before the call, expired deadline, cancel at a log-uniform virtual instant 1 ms-60 s, ctx deadline 5 ms-61 s}; every 40th case is forced to a GetValue/SearchValue with Quorum 1-2, alpha 3 or 10, >= 25 peers all holding valid records, latencies 1-400 ms, un-cancelled context; oracle in virtual time over the simulated wire/dial log + goroutine census; non-trivial = >= 1 RPC and (a contacted peer failed / was silent / late, or the cancellation hit the operation); distinct by (operation, cancel mode, shape, RPC count, outcome and return instant)",
 		Clauses: []string{"return-bounded", "cancel-prompt", "chan-closed", "chan-call-prompt", "quiet-after-return", "no-leak", "closed-empty"}},
 		func(c *vh.Case) {
 			sc := vC03GenSc(c.R, 150)
 			cm := vC03GenCancel(c.R)
+			if c.Idx%40 == 17 {
+				// forced class: quorum-limited value search among many holders of valid records answering at
+				// spread latencies, caller's context never cancelled (the search ends by quorum abort)
+				r := c.R
+				sc.Ops = []string{[]string{"getvalue", "searchvalue"}[r.Intn(2)]}
+				sc.Quorum, sc.ValFrac, sc.ValidOnly, sc.Local = 1+r.Intn(2), 1, true, false
+				sc.Cfg.A = []int{3, 10}[r.Intn(2)]
+				sc.Cfg.K = []int{5, 8, 20}[r.Intn(3)]
+				sc.Cfg.B = []int{1, 2, 3}[r.Intn(3)]
+				sc.Cfg.Seeds = sc.Cfg.K
+				if sc.Cfg.N < 25 {
+					sc.Cfg.N = 25 + r.Intn(100)
+				}
+				sc.MaxDelay, sc.FailFrac, sc.LiarFrac, sc.AllFail, sc.ConsumerDelay = 400, []float64{0, 0.1}[r.Intn(2)], 0, false, 0
+				cm = vC03Cancel{Mode: "none"}
+			}
 			vC03Describe(c, sc, cm)
 			c.Bubble(t, vC03Budget, "op-hang", func(t *testing.T) {
 				out := vC03RunOnce(t, c, sc, cm)
